@@ -64,19 +64,19 @@ def run(ctx):
             if fi is None:
                 raise Unanalysable('%s has no from_index' % ty)
             want = TABLE_EXCEPTIONS.get(ty, snake(ty) + '_NAMES')
-            used_i = set(s for s in statics_used(fi) if s.endswith('_NAMES'))
-            used_n = set(s for s in statics_used(fnm) if s.endswith('_NAMES')) if fnm is not None else used_i
-            if used_i != {want} or used_n != {want}:
-                return ('%s is wired to name table(s) %s / %s, expected its own table %s (%s)' % (ty, sorted(used_i), sorted(used_n), want, fn_site(p, ty + '::from_index')), {})
             st = p.resolve_static(want, fi.file)
             if st is None:
-                return '%s: table %s not found' % (ty, want)
+                return '%s: its own name table %s not found' % (ty, want)
+            names = py(I.static(want, fi.file))
+            size = len(names)
+            # wiring is decided semantically: the names the type actually serves must be exactly its own table (whatever helper it goes through)
+            served = [t.name(I.call('%s::from_index' % ty, [i])) for i in range(size)]
+            if served != names or py(t.m(I.call('%s::from_index' % ty, [0]), 'get_size')) != size:
+                return ('%s serves the names %s..., not its own table %s = %s... (wired to another table?) (%s)' % (ty, served[:3], want, names[:3], fn_site(p, ty + '::from_index')), {})
             other = tables_seen.get((st['file'], want))
             if other is not None:
                 return '%s and %s share the name table %s' % (ty, other, want)
             tables_seen[(st['file'], want)] = ty
-            names = py(I.static(want, fi.file))
-            size = len(names)
             mk = lambda i: I.call('%s::from_index' % ty, [i])
             for i in range(-size - 1, 2 * size + 2):
                 v = mk(i)
